@@ -6,21 +6,24 @@ from .c01 import bounds
 PROPERTY = "C09"
 
 
-def gen_unknown(env, pfx="unk", known=()):
-    """one well-formed unknown field: symbolic number (not 1..40 nor a known number, any up to 2**29-1), any wire type, symbolic payload"""
+def gen_unknown(env, pfx="unk", known=(), padded=False):
+    """one well-formed unknown field: symbolic number (not 1..40 nor a known number, any up to 2**29-1), any wire type, symbolic payload;
+    padded: the tag / value / length varints may carry one padding byte (a legal non-minimal encoding that must be re-emitted as received)"""
     number = env.int(pfx + ".number", 41, (1 << 29) - 1)
     for n in known:
         if n > 40:
             env.assume(number != n)
     wt = [0, 1, 2, 5][env.choose(pfx + ".wt", 4)]
+    pt = env.choose(pfx + ".pad-tag", 2) if padded else 0
+    pv = env.choose(pfx + ".pad-value", 2) if padded and wt in (0, 2) else 0
     if wt == 0:
-        return sw.cat(sw.tag(number, 0), sw.varint(env.int(pfx + ".varint", 0, (1 << 64) - 1)))
+        return sw.cat(sw.tag(number, 0, pt), sw.varint(env.int(pfx + ".varint", 0, (1 << 64) - 1), pv))
     if wt == 1:
-        return sw.cat(sw.tag(number, 1), env.bytes(pfx + ".f64", 8))
+        return sw.cat(sw.tag(number, 1, pt), env.bytes(pfx + ".f64", 8))
     if wt == 5:
-        return sw.cat(sw.tag(number, 5), env.bytes(pfx + ".f32", 4))
+        return sw.cat(sw.tag(number, 5, pt), env.bytes(pfx + ".f32", 4))
     n = env.choose(pfx + ".len", 3)
-    return sw.len_field(number, env.bytes(pfx + ".payload", n))
+    return sw.cat(sw.tag(number, 2, pt), sw.varint(n, pv, 5), env.bytes(pfx + ".payload", n))
 
 
 def h_len(env):
@@ -55,9 +58,9 @@ def h_len(env):
 
         try:
             r = proto.parse_length_prefixed(ref["M"], io.BytesIO(bytes(s2.getvalue())))
-            env.check("oracle:reference-reads-delimited", r is not None and r.SerializeToString(deterministic=True) is not None)
+            env.check("witness:reference-reads-delimited", r is not None and r.SerializeToString(deterministic=True) is not None)
         except Exception as e:  # pragma: no cover
-            env.check("oracle:reference-reads-delimited", False, repr(e))
+            env.check("witness:reference-reads-delimited", False, repr(e))
 
 
 LONG_LENS = [125, 126, 127, 128, 129, 16381, 16382, 16383, 16384, 16385]
@@ -139,7 +142,7 @@ def h_long(env):
     if not env.sym:
         ref = shapes.build_ref(cat)
         r = ref[type(m).__name__].FromString(bytes(data))
-        env.check("oracle:reference-same-size", len(r.SerializeToString()) == len(data))
+        env.check("witness:reference-same-size", len(r.SerializeToString()) == len(data))
 
 
 def units(tier):
